@@ -32,7 +32,8 @@ type concurrentTxn struct {
 func NewConcurrentTxnFrom(ctx context.Context, rootstore corekv.TxnStore, id uint64, readonly bool) *BasicTxn {
 	rootTxn := rootstore.NewTxn(readonly)
 	rootConcurentTxn := &concurrentTxn{Txn: rootTxn}
-	multistore := NewMultistore(rootTxn)
+	// The stores must go through the mutex as well, they are what the API calls use.
+	multistore := NewMultistore(rootConcurentTxn)
 
 	return &BasicTxn{
 		Multistore: multistore,
@@ -57,6 +58,12 @@ func (t *concurrentTxn) Has(ctx context.Context, key []byte) (bool, error) {
 	t.mu.Lock()
 	defer t.mu.Unlock()
 	return t.Txn.Has(ctx, key)
+}
+
+func (t *concurrentTxn) Iterator(ctx context.Context, opts corekv.IterOptions) (corekv.Iterator, error) {
+	t.mu.Lock()
+	defer t.mu.Unlock()
+	return t.Txn.Iterator(ctx, opts)
 }
 
 func (t *concurrentTxn) Set(ctx context.Context, key []byte, value []byte) error {
